@@ -443,6 +443,43 @@ fn run(ctx: &Ctx, src: &mut Src) -> WorldResult {
                     ));
                 }
             }
+        } else {
+            // ---- more colours than registers: the picture must be the library's own quantised
+            // image (quantisation itself is a pure function, property C13, not judged here):
+            // what is checked is that the sixel assembly represents that index image faithfully
+            src.probe("more-colours-than-registers-judged-against-quantised-image");
+            let reduced = Image::from(item.image.view(..want_h, ..).map(|_, color| {
+                let [red, green, blue, alpha] = color.to_rgba();
+                let snap = |v: u8| ((v as f32 / 2.55).round() * 2.55) as u8;
+                RGBA::new(snap(red), snap(green), snap(blue), alpha)
+            }));
+            if let Some((palette, indices)) = reduced.quantize(256, true, bg) {
+                for (at, got) in decoded.pixels.iter().enumerate() {
+                    let got = decoded.registers[&got.unwrap()];
+                    let idx = *indices.get(Position::new(at / want_w, at % want_w)).unwrap();
+                    let [red, green, blue] = palette.colors()[idx].to_rgb();
+                    let want = (scale(red), scale(green), scale(blue));
+                    if got != want {
+                        return Err(Violation::new(
+                            P,
+                            "C12.not-the-quantised-image",
+                            "many-colours",
+                            format!(
+                                "image {} {}x{} ({} distinct colours): pixel ({}, {}) decodes to {:?} but the quantised image has palette entry {} = {:?} there",
+                                item.class,
+                                want_h,
+                                want_w,
+                                distinct.len(),
+                                at % want_w,
+                                at / want_w,
+                                got,
+                                idx,
+                                want
+                            ),
+                        ));
+                    }
+                }
+            }
         }
     }
     Ok(())
